@@ -25,7 +25,7 @@ one() {
     # known findings of the unchanged tree do not count; any VIOLATION / exit!=0 does
     if [ $code -ne 0 ]; then echo "FALSE-ALARM $f (exit $code)"; echo "$out" | grep -E "^(VIOLATION|UNDECIDED|ANCHOR|  rule)" | head -6; rc=1; else echo "ok-silent  $f"; fi
   else
-    for r in $exp; do
+    for r in $(echo "$exp" | tr "," " "); do
       out=$("$RL" -repo "$d" -no-evidence -rule "$r" 2>&1); code=$?
       if [ $code -eq 1 ] && echo "$out" | grep -q "^VIOLATION"; then echo "ok-fires   $f [$r]"; else echo "MISSED $f [$r] (exit $code)"; rc=1; fi
     done
